@@ -294,6 +294,10 @@ theorem evalPartial_identity (st0 : St) (n : Node) (v : Nat) (x o : Name)
   unfold evalPartial
   rw [hl]
   simp only [runEvaluator, evIdentity, hin, hout]
+  by_cases hgi : st0.isGraphInput x = true
+  · rw [if_pos hgi]
+    exact ⟨_, rfl, rfl, fun y => rfl, ⟨rfl, rfl, rfl, rfl⟩, rfl, rfl⟩
+  rw [if_neg hgi]
   refine ⟨_, rfl, rfl, ?_, ⟨rfl, rfl, rfl, rfl⟩, rfl, rfl⟩
   intro y
   simp only [St.constOf, St.getInfo, St.setInfo, St.setSym, St.note, lookupA_insert]
